@@ -65,6 +65,7 @@ class World:
         self.probes = collections.Counter()
         self.view = {}  # bucket id -> {"meta":..., "events":[(id,ts,dur,data)...] sorted by id}
         self.stale = {}  # bucket id -> Bucket handle of a bucket deleted since
+        self.last_obj = None
 
     # ------------------------------------------------------------------ store lifecycle
     def open(self):
@@ -245,7 +246,6 @@ class World:
         )
         if out["exc"] is None:
             self.handles[b] = out["ret"]
-            self.stale.pop(b, None)
         return out
 
     def op_update(self, s):
@@ -257,7 +257,7 @@ class World:
     def op_delete_bucket(self, s):
         out = self._call(self.ds.delete_bucket, s["b"])
         if out["exc"] is None and s["b"] in self.handles:
-            self.stale[s["b"]] = self.handles.pop(s["b"])
+            self.stale.setdefault(s["b"], self.handles.pop(s["b"]))  # keep the oldest handle
         return out
 
     def op_insert_stale(self, s):
@@ -280,7 +280,7 @@ class World:
     def op_describe(self, s):
         b = s["b"]
         if s.get("stale"):
-            h = self.handles.get(b)
+            h = self.stale.get(b) or self.handles.get(b)
             if h is None:
                 return {"skipped": "no handle"}
             return self._call(h.metadata)
@@ -289,6 +289,15 @@ class World:
         return self._call(Bucket(self.ds, b).metadata)
 
     # event level
+    def _ev(self, s):
+        """The Event object a step passes in.  With "reuse_obj" the client passes the very same
+        Python object it passed (or was handed back) in its previous call -- a legal thing to do."""
+        if s.get("reuse_obj") and self.last_obj is not None:
+            self.probes["event_object_reused"] += 1
+            return self.last_obj
+        self.last_obj = mk_event(s["ev"])
+        return self.last_obj
+
     def _bk(self, b):
         if b not in self.view:
             return None
@@ -298,7 +307,7 @@ class World:
         bk = self._bk(s["b"])
         if bk is None:
             return {"skipped": "no bucket"}
-        ev = mk_event(s["ev"])
+        ev = self._ev(s)
         out = self._call(bk.insert, ev)
         out["passed"] = [ev]
         return out
@@ -312,6 +321,12 @@ class World:
         targets = []
         used = set()
         for item in s["evs"]:
+            if item.get("dup_first") and evs and targets[0][0] is None:
+                # the same Python object appears more than once in the list (as in `n * [Event(...)]`)
+                evs.append(evs[0])
+                targets.append((None, targets[0][1]))
+                self.probes["bulk_same_object_twice"] += 1
+                continue
             E = dict(item["ev"]) if "ev" in item else dict(item)
             tid = None
             if "upsert" in item:
@@ -352,7 +367,7 @@ class World:
             tid = self.resolve(b, s["k"])
             if tid is None:
                 return {"skipped": "empty"}
-        ev = mk_event(s["ev"])
+        ev = self._ev(s)
         out = self._call(bk.replace, tid, ev)
         out["tid"] = tid
         out["passed"] = [ev]
@@ -369,7 +384,7 @@ class World:
         r = bk.get(limit=1)
         if not r:
             return {"skipped": "limit-1 read empty"}
-        ev = mk_event(s["ev"])
+        ev = self._ev(s)
         out = self._call(bk.replace_last, ev)
         out["newest"] = obs_event(r[0])
         out["passed"] = [ev]
